@@ -305,6 +305,24 @@ class Check:
             self.solver_time += res_h.time
             if res_h.status == "sat":
                 res = res_h
+        if res.status == "unknown":
+            # fallback: linear over-approximation (UF applications and nonlinear products become opaque constants).  unsat there is a proof;
+            # sat there is only a candidate counterexample, which counts if and only if the replay reproduces it on the real code
+            import sys as _sys
+            _old = _sys.getrecursionlimit()
+            _sys.setrecursionlimit(100000)
+            try:
+                res_l = solve.decide(solve.linear_abstraction(fs), timeout_s=min(30, timeout or self.default_timeout))
+            except RecursionError:
+                res_l = None
+            finally:
+                _sys.setrecursionlimit(_old)
+            if res_l is not None:
+                self.queries += 1
+                self.solver_time += res_l.time
+                if res_l.status in ("unsat", "sat"):
+                    res = res_l
+                    res.solver += "/linear-abstraction"
         ob.time = res.time
         ob.solver = res.solver
         ob.status = res.status
